@@ -1,4 +1,4 @@
-FIX_COMMITS = ['905927f32', '71e6a50a8', '582569f7a', '3f8ac59d6', 'c0d2ec9c5', 'c6f23151b', '735131b2d', '6500bef69', 'c8b8ba304', '4205280fe', '0c8f53b35', '32638200f', 'a53209f77', '598d11d7e', 'f96dd7efe', '287c6aa26', 'f544cc7ee', '09e61c802',
+FIX_COMMITS = ['d3c9c356b', '905927f32', '71e6a50a8', '582569f7a', '3f8ac59d6', 'c0d2ec9c5', 'c6f23151b', '735131b2d', '6500bef69', 'c8b8ba304', '4205280fe', '0c8f53b35', '32638200f', 'a53209f77', '598d11d7e', 'f96dd7efe', '287c6aa26', 'f544cc7ee', '09e61c802',
                '784ebe24d', '4d3242ce7', '3839d873a', 'bff7b64d1', 'd5002ebc4', '84b06c85c']
 NOTE = ('Exploration, not proof: absence of violations is shown only for the generated/enumerated cases counted in the evidence. '
         'Trusted base: the oracle code under /verif (stdlib datetime/decimal/ipaddress based), the datedelta and grapheme shims, CPython 3.12.')
